@@ -64,7 +64,7 @@ def seeds():
            "path would overlook (rare options, one-framework-only code, error paths, boundaries, cross-module agreement),",
            "-5/-6 a third round whose authors were additionally told which four changes per property already existed and asked",
            "for a different site and mechanism. First-run detection by the property's own quick check: round 1 33/40 (+1 by a",
-           "neighbouring check), round 2 23/40 (+1), round 3 21/40, round 4 26/40 (+4 by neighbouring checks; -7/-8, whose",
+           "neighbouring check), round 2 23/40 (+1), round 3 21/40, round 4 26/40 (+5 by neighbouring checks; -7/-8, whose",
            "authors knew all six earlier changes per property); after strengthening 157 of the 160 are reported by their own",
            "property's quick check, C01-2/C01-3 by C12 (compression is C12's), and C16-3 by none because a later repair made",
            "it behaviour-neutral; the misses of each round were configuration plumbing",
